@@ -13,6 +13,10 @@ whole of it unless the transfer was aborted (client ERROR, invalid packet, retri
 without a wrap value the sequence stops at block 65535 and an ERROR packet follows. An ERROR packet
 of the server's own is no "abort" that excuses missing data: it is accepted only in answer to the
 client's abort or after the last ideal packet (`serverErrorsJustified`, `serverErrorsJustified_iff`).
+And "an ERROR packet follows" is demanded, not merely allowed: a transfer that is too long for the block
+counter and whose ideal packets were all sent must leave the C02 automaton in `ended`
+(`overflowEndsWithError`, `overflowEndsWithError_iff`, `c02Step_ended`) — stopping silently after the
+acknowledgement of block 65535 is rejected.
 The theorems are stated for both transfer modes (`na`); C01 is the instance `na = false`.
 -/
 namespace Vinegar.C01
@@ -72,8 +76,10 @@ theorem take_isPrefixOf (l : List Bytes) (m : Nat) : (l.take m).isPrefixOf l = t
 /-- **C01 / C08 on whole transfers**: for every configuration (wrap 0, 1 or none), request,
 content, short-read pattern and event script, the model's trace passes `c01Check`: the DATA
 packets are a prefix of the ideal sequence for the negotiated block size, and all of it unless
-the trace shows an abort; the transfer is not abandoned within the retry budget; and the server sends
-an ERROR packet of its own only after the client's abort or after the whole ideal sequence -/
+the trace shows an abort; the transfer is not abandoned within the retry budget; the server sends
+an ERROR packet of its own only after the client's abort or after the whole ideal sequence; and a
+transfer that is too long for the block counter (wrapping disabled) does end with that ERROR packet
+unless it was over before -/
 theorem c01Check_runTransfer (cfg : Cfg) (hw : WrapOK cfg.wrap) (rrq : Rrq) (content : Bytes)
     (caps : List Nat) (sizeKnown : Bool) (script : List Ev) :
     c01Check rrq.netascii (negOf cfg rrq (.stream content caps sizeKnown none)).blockSize cfg.wrap
@@ -99,10 +105,12 @@ theorem c01Check_runTransfer (cfg : Cfg) (hw : WrapOK cfg.wrap) (rrq : Rrq) (con
     ((transferBlocks rrq.netascii (negOf cfg rrq h).blockSize content caps).map some) script
   have hquiet := noServerError_processRequest (envOf cfg rrq h) (negOf cfg rrq h).oack
     ((transferBlocks rrq.netascii (negOf cfg rrq h).blockSize content caps).map some) 0 script
+  have hlen := processRequest_completed_length (envOf cfg rrq h) (negOf cfg rrq h).oack
+    (transferBlocks rrq.netascii (negOf cfg rrq h).blockSize content caps) script
   generalize processRequest (envOf cfg rrq h) (negOf cfg rrq h).oack
     ((transferBlocks rrq.netascii (negOf cfg rrq h).blockSize content caps).map some) 0 script = pr at *
   have hwrap : (envOf cfg rrq h).wrap = cfg.wrap := rfl
-  rw [hwrap] at h1 h2
+  rw [hwrap] at h1 h2 hlen
   unfold c01Check
   simp only [hideal]
   have hdatas : dataFirsts (runTransfer cfg rrq h script) =
@@ -154,6 +162,30 @@ theorem c01Check_runTransfer (cfg : Cfg) (hw : WrapOK cfg.wrap) (rrq : Rrq) (con
       simp [finish, errorsJustifiedFrom, isServerError, c02Step, herr, hall]
     | readFault => exact absurd hout h3
   rw [hsej, Bool.and_true]
+  -- a transfer that is too long for the block counter is never completed: it is aborted before or at
+  -- block 65535 (automaton in `ended`) or `finish` sends the ERROR packet of the overflow
+  have hovf : overflowEndsWithError (negOf cfg rrq h).timeout cfg.maxRetries
+      (transferBlocks rrq.netascii (negOf cfg rrq h).blockSize content caps)
+      (idealPackets cfg.wrap 0 (transferBlocks rrq.netascii (negOf cfg rrq h).blockSize content caps))
+      (runTransfer cfg rrq h script) = true := by
+    unfold overflowEndsWithError
+    cases hout : pr.out with
+    | completed => simp [tooLong, hlen hout]
+    | overflow =>
+      rw [hrun, runSteps_append, hP2, Option.bind_some]
+      rcases hPquiet (Or.inr (Or.inl hout)) with hq | ⟨c, hq, _⟩ <;> subst hq <;>
+        simp [hout, finish, runSteps, c02Step, isEnded, herr]
+    | readFault => exact absurd hout h3
+    | gaveUp =>
+      rw [hrun, runSteps_append, hP2, Option.bind_some, hPend (Or.inl hout)]
+      simp [hout, finish, runSteps, c02Step, isEnded]
+    | invalid =>
+      rw [hrun, runSteps_append, hP2, Option.bind_some, hPend (Or.inr (Or.inl hout))]
+      simp [hout, finish, runSteps, c02Step, isEnded, herr]
+    | peerError =>
+      rw [hrun, runSteps_append, hP2, Option.bind_some, hPend (Or.inr (Or.inr hout))]
+      simp [hout, finish, runSteps, c02Step, isEnded]
+  rw [hovf, Bool.and_true]
   have hended : (pr.out = .gaveUp ∨ pr.out = .invalid ∨ pr.out = .peerError) →
       sawAbort (negOf cfg rrq h).timeout cfg.maxRetries (runTransfer cfg rrq h script) = true := by
     intro hc
@@ -182,7 +214,7 @@ theorem complete_unless_aborted (cfg : Cfg) (hw : WrapOK cfg.wrap) (rrq : Rrq) (
   have h := c01Check_runTransfer cfg hw rrq content caps sizeKnown script
   unfold c01Check at h
   simp only [hna, Bool.false_or, Bool.and_eq_true, beq_iff_eq] at h
-  exact h.1.1.2
+  exact h.1.1.1.2
 
 /-! ### the server's own ERROR packets -/
 
@@ -274,6 +306,102 @@ the block counter overflows after the last ideal packet (conjunct of `c01Check_r
 theorem serverErrorsJustified_runTransfer (cfg : Cfg) (hw : WrapOK cfg.wrap) (rrq : Rrq) (content : Bytes)
     (caps : List Nat) (sizeKnown : Bool) (script : List Ev) :
     serverErrorsJustified (negOf cfg rrq (.stream content caps sizeKnown none)).timeout cfg.maxRetries
+      (idealPackets cfg.wrap 0
+        (idealBlocks rrq.netascii (negOf cfg rrq (.stream content caps sizeKnown none)).blockSize content))
+      (runTransfer cfg rrq (.stream content caps sizeKnown none) script) = true := by
+  have h := c01Check_runTransfer cfg hw rrq content caps sizeKnown script
+  unfold c01Check at h
+  simp only [Bool.and_eq_true] at h
+  exact h.1.2
+
+/-! ### an over-long transfer ends with an error -/
+
+/-- how the C02 automaton gets into `ended`: through a datagram of the server to the client that is
+neither DATA nor OACK (its ERROR packet), an ERROR or invalid packet from the client, or the timeout of
+the last permitted transmission — closing the file or the socket does not get it there -/
+theorem c02Step_ended (T R : Nat) (ph : Phase) (o : Obs) (h : c02Step T R ph o = some .ended) :
+    ph = .ended ∨
+    (∃ t p, o = .send t 0 p ∧ isFlow p = false) ∨
+    (∃ t d data c, o = .recv t d 0 data ∧ ph = .flow c ∧ (classify data = .invalid ∨ classify data = .peerError)) ∨
+    (∃ t c, o = .timeout t ∧ ph = .flow c ∧ c.acked = false ∧ c.count = R + 1) := by
+  cases o with
+  | send t dst p =>
+    by_cases hd : dst = 0
+    · subst hd
+      by_cases hf : isFlow p = true
+      · simp only [c02Step, hf, if_true] at h
+        cases ph with
+        | ended => exact Or.inl rfl
+        | idle => cases he : expectOf p <;> simp [he] at h
+        | flow c =>
+          cases he : expectOf p with
+          | none => simp [he] at h
+          | some e =>
+            simp only [he] at h
+            split at h <;> split at h <;> simp at h
+      · exact Or.inr (Or.inl ⟨t, p, rfl, by simpa using hf⟩)
+    · simp only [c02Step, hd, if_false] at h
+      cases ph <;> simp at h
+      exact Or.inl rfl
+  | recv t d src data =>
+    cases ph with
+    | ended => exact Or.inl rfl
+    | idle => simp [c02Step] at h
+    | flow c =>
+      by_cases hs : src = 0
+      · subst hs
+        simp only [c02Step, if_true] at h
+        cases hc : classify data with
+        | ack n => simp [hc] at h
+        | invalid => exact Or.inr (Or.inr (Or.inl ⟨t, d, data, c, rfl, rfl, Or.inl hc⟩))
+        | peerError => exact Or.inr (Or.inr (Or.inl ⟨t, d, data, c, rfl, rfl, Or.inr hc⟩))
+      · simp [c02Step, hs] at h
+  | timeout t =>
+    cases ph with
+    | ended => exact Or.inl rfl
+    | idle => simp [c02Step] at h
+    | flow c =>
+      by_cases hcount : c.count = R + 1
+      · cases hack : c.acked with
+        | false => exact Or.inr (Or.inr (Or.inr ⟨t, c, rfl, rfl, hack, hcount⟩))
+        | true => simp [c02Step, hack] at h
+      · simp [c02Step, hcount] at h
+  | closeSocket => simp only [c02Step, Option.some.injEq] at h; exact Or.inl h
+  | closeFile => simp only [c02Step, Option.some.injEq] at h; exact Or.inl h
+  | logException => simp only [c02Step, Option.some.injEq] at h; exact Or.inl h
+
+/-- what `overflowEndsWithError` says: when the content has more blocks than ideal packets (counter
+overflow with wrapping disabled) and all ideal packets were sent, the C02 automaton leaves the trace
+in `ended` (traces the automaton rejects are `c02Check`'s business) -/
+theorem overflowEndsWithError_iff (T R : Nat) (blocks ideal : List Bytes) (tr : List Obs) :
+    overflowEndsWithError T R blocks ideal tr = true ↔
+      (ideal.length < blocks.length → dataFirsts tr = ideal →
+        ∀ ph, runSteps (c02Step T R) .idle tr = some ph → ph = .ended) := by
+  unfold overflowEndsWithError tooLong
+  cases hrun : runSteps (c02Step T R) .idle tr with
+  | none => simp
+  | some ph =>
+    simp only [Bool.or_eq_true, Bool.not_eq_true', Bool.and_eq_false_iff, decide_eq_false_iff_not,
+      beq_eq_false_iff_ne, isEnded_iff, Option.some.injEq]
+    constructor
+    · rintro ((h | h) | h) hlt hall ph' hph
+      · exact absurd hlt h
+      · exact absurd hall h
+      · exact hph ▸ h
+    · intro h
+      by_cases hlt : ideal.length < blocks.length
+      · by_cases hall : dataFirsts tr = ideal
+        · exact Or.inr (h hlt hall ph rfl)
+        · exact Or.inl (Or.inr hall)
+      · exact Or.inl (Or.inl hlt)
+
+/-- the model ends every over-long transfer whose ideal packets were all sent with an ERROR packet, or
+the transfer was over before for one of the other reasons of `c02Step_ended` (conjunct of
+`c01Check_runTransfer`) -/
+theorem overflowEndsWithError_runTransfer (cfg : Cfg) (hw : WrapOK cfg.wrap) (rrq : Rrq) (content : Bytes)
+    (caps : List Nat) (sizeKnown : Bool) (script : List Ev) :
+    overflowEndsWithError (negOf cfg rrq (.stream content caps sizeKnown none)).timeout cfg.maxRetries
+      (idealBlocks rrq.netascii (negOf cfg rrq (.stream content caps sizeKnown none)).blockSize content)
       (idealPackets cfg.wrap 0
         (idealBlocks rrq.netascii (negOf cfg rrq (.stream content caps sizeKnown none)).blockSize content))
       (runTransfer cfg rrq (.stream content caps sizeKnown none) script) = true := by
@@ -397,6 +525,55 @@ example : demoOverflow.out = .overflow ∧
       (demoOverflow.obs ++ finish demoOverflow.out demoOverflow.now ++ [.closeFile, .closeSocket]) = true ∧
     serverErrorsJustified 2048 1 (idealPackets (some 0) 65534 [[1], [2]])
       (demoOverflow.obs ++ finish demoOverflow.out demoOverflow.now ++ [.closeFile, .closeSocket]) = false := by
+  decide
+
+/-! #### an over-long transfer with wrapping disabled must END WITH AN ERROR -/
+
+/-- the same small scale: two blocks left at block 65534, wrapping disabled, so block 65535 is the last
+ideal packet and the content is too long. A server that sends it, receives its acknowledgement and
+then just closes file and socket (the ERROR packet of the overflow branch is never sent) is rejected … -/
+example : overflowEndsWithError 2048 1 [[1], [2]] (idealPackets none 65534 [[1], [2]])
+    [.send 0 0 (dataPacket 65535 [1]), .recv 1 1 0 (ackPacket 65535), .closeFile, .closeSocket] = false := by
+  decide
+
+/-- … by the new conjunct alone: for the other four the trace is a complete, orderly transfer (every
+ideal packet sent, nothing outstanding, no ERROR packet to justify) -/
+example :
+    tooLong [[1], [2]] (idealPackets none 65534 [[1], [2]]) = true ∧
+    (dataFirsts [.send 0 0 (dataPacket 65535 [1]), .recv 1 1 0 (ackPacket 65535), .closeFile, .closeSocket]).isPrefixOf
+      (idealPackets none 65534 [[1], [2]]) = true ∧
+    dataFirsts [.send 0 0 (dataPacket 65535 [1]), .recv 1 1 0 (ackPacket 65535), .closeFile, .closeSocket] =
+      idealPackets none 65534 [[1], [2]] ∧
+    noPrematureGiveUp 2048 1
+      [.send 0 0 (dataPacket 65535 [1]), .recv 1 1 0 (ackPacket 65535), .closeFile, .closeSocket] = true ∧
+    serverErrorsJustified 2048 1 (idealPackets none 65534 [[1], [2]])
+      [.send 0 0 (dataPacket 65535 [1]), .recv 1 1 0 (ackPacket 65535), .closeFile, .closeSocket] = true := by
+  decide
+
+/-- the model's trace of that transfer is the rejected one plus the ERROR packet, and is accepted -/
+example : demoOverflow.obs ++ finish demoOverflow.out demoOverflow.now ++ [.closeFile, .closeSocket] =
+      [.send 0 0 (dataPacket 65535 [1]), .recv 1 1 0 (ackPacket 65535), .send 1 0 err0, .closeFile, .closeSocket] ∧
+    overflowEndsWithError 2048 1 [[1], [2]] (idealPackets none 65534 [[1], [2]])
+      (demoOverflow.obs ++ finish demoOverflow.out demoOverflow.now ++ [.closeFile, .closeSocket]) = true := by
+  decide
+
+/-- the retry budget running out at block 65535 (no acknowledgement, two transmissions) also ends the
+transfer, without an ERROR packet; and with a wrap value the clause does not apply -/
+def demoOverflowGaveUp : Res End :=
+  sendData { timeout := 2048, maxRetries := 1, wrap := none } [some [1], some [2]] 65534 0 []
+
+def demoWrapped : Res End :=
+  sendData { timeout := 2048, maxRetries := 1, wrap := some 0 } [some [1], some [2]] 65534 0
+    [.pkt 1 0 0 (ackPacket 65535), .pkt 1 0 0 (ackPacket 0)]
+
+example : demoOverflowGaveUp.out = .gaveUp ∧
+    overflowEndsWithError 2048 1 [[1], [2]] (idealPackets none 65534 [[1], [2]])
+      (demoOverflowGaveUp.obs ++ finish demoOverflowGaveUp.out demoOverflowGaveUp.now ++
+        [.closeFile, .closeSocket]) = true ∧
+    demoWrapped.out = .completed ∧
+    tooLong [[1], [2]] (idealPackets (some 0) 65534 [[1], [2]]) = false ∧
+    overflowEndsWithError 2048 1 [[1], [2]] (idealPackets (some 0) 65534 [[1], [2]])
+      (demoWrapped.obs ++ finish demoWrapped.out demoWrapped.now ++ [.closeFile, .closeSocket]) = true := by
   decide
 
 end Vinegar.C01
